@@ -71,6 +71,12 @@ func (s *Server) Shutdown(ctx context.Context) error {
 
 func (s *Server) proxyRoute(c *gin.Context) {
 	s.proxy.ServeHTTP(c.Writer, c.Request)
+
+	// This is a 'no route' handler, so if the upstream responds 404 with an
+	// empty body, nothing has been written yet and gin would replace the
+	// response with its own default 404. Therefore write the upstream's
+	// header now.
+	c.Writer.WriteHeaderNow()
 }
 
 func (s *Server) panicRoute(c *gin.Context, err any) {
